@@ -44,7 +44,7 @@ OPS = [k for k in go.ALL_OPS if k != "step"]
 
 
 def generate(R: Draw, tier: str) -> dict:
-    how = R.weighted([("genuine", 3), ("transplanted", 2), ("perturbed", 5), ("random", 3), ("mark-focus", 2), ("reopen-focus", 2)])
+    how = R.weighted([("genuine", 3), ("transplanted", 2), ("perturbed", 5), ("random", 3), ("mark-focus", 2), ("reopen-focus", 2), ("join-focus", 2)])
     if how == "mark-focus":
         sref = R.choice(["big_small", "remark_user", "asym_chain"])
         if R.bool(0.8):
@@ -70,6 +70,13 @@ def generate(R: Draw, tier: str) -> dict:
                 desc = {"k": "addMark", "from": op["from"], "to": op["to"], "mark": op["mark"]}
             else:
                 desc = {"k": "addNodeMark", "pos": min(n, op["from"] + 2) if R.bool(0.3) else op["from"], "mark": op["mark"]}
+    if how == "join-focus":
+        for _ in range(3):
+            desc = gs.sibling_join_step(R, g, doc)
+            if desc is not None:
+                break
+            doc = g.doc(R, R.weighted([("small", 3), ("medium", 3)]))
+            n = P.size_of(doc["c"], rs.leaf_types)
     if how == "reopen-focus":
         # a genuine wrap step re-spelled with its parent open on one side (wrappers below the open depth), then one
         # wrapper type swapped or another field moved: the payload the gap lands in must still be checked
